@@ -74,6 +74,8 @@ def getter_kinds(m):
                         kinds.add('other')
                 elif isinstance(a, ast.Call) and (call_name(a) or '').startswith('attributes.'):
                     kinds.add('wrapperlist')
+                elif isinstance(a, ast.Attribute):
+                    kinds.add('rawlist')       # [x.field for x in ...] written as a loop
                 else:
                     kinds.add('other')
             kind = next(iter(kinds)) if len(kinds) == 1 else 'other'
